@@ -48,6 +48,9 @@ class NumpyShim:
     def _kind(self, dtype, default=None):
         if dtype is None:
             return default
+        nm = getattr(dtype, "__name__", "")
+        if nm in ("s_bool", "s_int", "s_float"):
+            dtype = {"s_bool": bool, "s_int": int, "s_float": float}[nm]
         k = A.kind_from_dtype(dtype)
         if self.int_mode == "math" and k.is_bv:
             return A.INT
@@ -71,6 +74,9 @@ class NumpyShim:
         return A.SArr.symbolic(k, n, "empty")
 
     def _full(self, shape, dtype, v):
+        nm = getattr(dtype, "__name__", "")
+        if nm in ("s_bool", "s_int", "s_float"):
+            dtype = {"s_bool": bool, "s_int": int, "s_float": float}[nm]
         if isinstance(shape, tuple) and len(shape) == 2 and _anysym(shape):
             k = self._kind(dtype, A.REAL)
             return A.SArr2.const(k, A._zi(shape[0]), A._zi(shape[1]), v)
